@@ -29,6 +29,10 @@ pub fn origin_of(module: &str) -> Origin {
         Origin::Service
     } else if module.ends_with("::driver::driver") {
         Origin::RunLoop
+    } else if module.contains("::driver::") {
+        // any other file of the driver that writes: a helper of the printer (dumps moved into a
+        // module of their own, say); what it writes is program-visible text, not the driver's voice
+        Origin::Printer
     } else {
         Origin::Other
     }
